@@ -74,7 +74,13 @@ func GetNextSqrtPriceFromAmountBaseInRoundingUp(sqrtPriceCurrent, liquidity, amo
 	// denominator = product + liquidity
 	denominator := product
 	denominator.AddMut(liquidity)
-	return liquidity.MulRoundUp(sqrtPriceCurrent).QuoRoundUp(denominator)
+	sqrtPriceNext = liquidity.MulRoundUp(sqrtPriceCurrent).QuoRoundUp(denominator)
+	// Adding base never raises the price: when the amount is too small to move the price by one
+	// unit of precision, rounding up twice would overshoot the current price by that unit.
+	if sqrtPriceNext.GT(sqrtPriceCurrent) {
+		return sqrtPriceCurrent
+	}
+	return sqrtPriceNext
 }
 
 // sqrt_next = liq * sqrt_current / (liq - token_out * sqrt_current)
